@@ -205,7 +205,12 @@ def main(argv=None):
             new.append(v)
 
     # confirm each new violation by replaying it twice (determinism)
-    confirmed = []
+    # A violation that does not replay from its record is never reported.  If *nothing*
+    # replays the check itself is broken (exit 2); if other violations of the same run do
+    # replay, the unreplayable ones are dropped with a note (they were observed in a pool
+    # worker whose interpreter had been warmed by earlier evaluations - the history-
+    # dependent behaviour itself is what the call-history jobs report reproducibly).
+    confirmed, unconfirmed = [], []
     for v in new[:30]:
         try:
             viol, sig, obs = mod.replay(v)
@@ -215,13 +220,16 @@ def main(argv=None):
                     json.dumps(obs2, sort_keys=True, default=repr):
                 print('NONDETERMINISM property=%s: violation did not replay '
                       'identically: %s' % (prop, v.get('violation')), file=sys.stderr)
-                print('BROKEN-CHECK property=%s nondeterministic replay' % prop)
-                return 2
+                unconfirmed.append(v)
+                continue
         except Exception:
             traceback.print_exc()
             print('BROKEN-CHECK property=%s replay crashed' % prop)
             return 2
         confirmed.append(v)
+    if unconfirmed and not confirmed:
+        print('BROKEN-CHECK property=%s nondeterministic replay' % prop)
+        return 2
 
     wall = time.time() - t0
     for kid, (k, v) in sorted(seen_known.items()):
